@@ -424,3 +424,8 @@ CHECKS = [
     Check("update", judge_update, strategy=strat_update, quick=2500, thorough=100000,
           rule="update_recursively (dict and string form), update_nested with key chains of length 0-3, type errors."),
 ]
+
+
+from .. import covfuzz  # noqa
+CHECKS.append(covfuzz.check(CHECKS, "harness.props.c07", "generated_pairs", quick=4000, thorough=150000))
+CHECKS.append(covfuzz.check(CHECKS, "harness.props.c07", "update", quick=3000, thorough=100000))
